@@ -1,2 +1,6 @@
 import Emitter.Props.C18
-#print axioms Emitter.C18.placeholder
+#print axioms Emitter.C18.status_exact
+#print axioms Emitter.C18.subscribe_notifies_once
+#print axioms Emitter.C18.unsubscribe_notifies_once
+#print axioms Emitter.C18.notification_receivers
+#print axioms Emitter.C18.sync_step
